@@ -166,6 +166,12 @@ fn execute(sc: &Scenario, acc: &mut Acc) -> Result<Vec<Violation>, String> {
     // The sandbox path ends up inside the archive (absolute symlink targets are recorded), so it
     // must be a function of the scenario, not of the process id or of which worker runs it.
     let box_base = std::path::PathBuf::from(if std::path::Path::new("/dev/shm").is_dir() { "/dev/shm" } else { "/tmp" }).join(format!("verif-box-{:016x}", sc.seed));
+    // ... which means two simcheck processes running the same seed at the same time would share
+    // it: an advisory lock held for the scenario keeps them apart (released when the file is
+    // dropped at the end of this function).
+    let lock_path = box_base.with_file_name(format!("verif-box-lock-{:03x}", sc.seed % 1024));
+    let lock_file = std::fs::OpenOptions::new().create(true).truncate(false).write(true).open(&lock_path).map_err(|e| format!("sandbox lock {lock_path:?}: {e}"))?;
+    lock_file.lock().map_err(|e| format!("sandbox lock {lock_path:?}: {e}"))?;
     let _ = std::fs::remove_dir_all(&box_base);
     for step in &sc.steps {
         // resolve the absolute-target placeholder
